@@ -159,9 +159,13 @@ class LinProb(Problem):
         self.n = n
         self.neval = 0
         self.nsolve = 0
+        from pySDC.core.problem import WorkCounter
+
+        self.work_counters['rhs'] = WorkCounter()  # (as the shipped problem classes: lets LogWork record something)
 
     def eval_f(self, u, t):
         self.neval += 1
+        self.work_counters['rhs']()
         f = self.dtype_f(self.init)
         f[:] = matvec(self.Am, u)
         return f
